@@ -63,6 +63,8 @@ type Contract struct {
 	// Closure contracts: parameters of the form `apply fn(i, j) == expr` give
 	// meaning to function-typed parameters; see spec.go.
 	ReplayReq []string // extra input restrictions for the replay sweep (evaluation cost)
+	Nilable   []string // parameters that may be nil (default: pointer-like parameters are required non-nil)
+	Preserves []string // pointer expressions whose pointee cells are unchanged by the function
 	Uses  []string // lemma instances / axioms available in this function
 	Globals   []string // global invariants (preds) this function relies on
 	InitPhase bool     // runs during package initialisation: frozen globals are ordinary memory
@@ -106,6 +108,7 @@ type PredDecl struct {
 }
 
 type ContractSet struct {
+	IfacePure map[string]bool    // pkgpath::Iface -> all methods are assumed pure (delegates)
 	Preds   map[string]*PredDecl // key pkgpath::name
 	Frozen  map[string]bool      // key pkgpath::global
 	Funcs   map[string]*Contract // key pkgpath + "." + relname
@@ -165,6 +168,11 @@ func (cs *ContractSet) parseFile(fset *token.FileSet, pkgPath string, f *ast.Fil
 			cs.Lemmas = append(cs.Lemmas, curLemma)
 			cur = nil
 			curLoop = nil
+			continue
+		case "iface-pure":
+			for _, g := range strings.Fields(rest) {
+				cs.IfacePure[contractKey(pkgPath, g)] = true
+			}
 			continue
 		case "frozen":
 			for _, g := range strings.Fields(rest) {
@@ -320,6 +328,10 @@ func (cs *ContractSet) parseFile(fset *token.FileSet, pkgPath string, f *ast.Fil
 			} else {
 				cs.Errors = append(cs.Errors, ln.pos+": use-step outside loop")
 			}
+		case "nilable":
+			cur.Nilable = append(cur.Nilable, strings.Fields(rest)...)
+		case "preserves":
+			cur.Preserves = append(cur.Preserves, splitTop(rest, ';')...)
 		case "replay-requires":
 			cur.ReplayReq = append(cur.ReplayReq, rest)
 		case "global":
